@@ -351,5 +351,6 @@ def install(eng):
         return [(s3, Some(v)) for s3, v in e.call_closure(s1, fr, clo, [])] + [(s2, NONE())]
     M(r'core::bool::<impl bool>::then$', then)
     M(r'^std::vec::Vec::<.*>::(as_slice|as_mut_slice)$', lambda e, st, fr, f, a, m: one(st, a[0]))
+    M(r'^<&?f64 as std::ops::Rem<&?f64>>::rem$', lambda e, st, fr, f, a, m: one(st, e.binop('Rem', D(st, a[0]) if isinstance(a[0], RefV) else a[0], D(st, a[1]) if isinstance(a[1], RefV) else a[1])))
     M(r'^std::time::Instant::now$', lambda e, st, fr, f, a, m: one(st, Opaque('instant')))
     M(r'^std::time::Instant::elapsed$', lambda e, st, fr, f, a, m: one(st, Opaque('duration')))
